@@ -150,4 +150,8 @@ BENIGN += [
         "    {\n        match name {\n            n if ctx.scope().contains(n) => Ok(None),\n            \"x\" =>",
         "resolver: scope test as the first guarded arm",
     ),
+    # ---- WGSL shaders ------------------------------------------------------
+    ("fidget-wgpu/src/shaders/interval_ops.wgsl", "    let ab = lhs.v * rhs.v;\n    let cd = lhs.v.yx * rhs.v;\n    return Value(vec2f(\n        min(min(ab[0], ab[1]), min(cd[0], cd[1])),\n        max(max(ab[0], ab[1]), max(cd[0], cd[1])),\n    ));\n}\n\nfn op_div", "    let cross = lhs.v.yx * rhs.v;\n    let same = lhs.v * rhs.v;\n    return Value(vec2f(\n        min(min(same.x, same.y), min(cross.x, cross.y)),\n        max(max(cross[0], cross[1]), max(same[0], same[1])),\n    ));\n}\n\nfn op_div", "WGSL op_mul: rename, reorder the lets, .x/.y for [0]/[1], commuted max"),
+    ("fidget-wgpu/src/shaders/interval_ops.wgsl", "fn op_neg(lhs: Value) -> Value {\n    return Value(-lhs.v.yx);\n}", "fn op_neg(lhs: Value) -> Value {\n    // negation swaps the bounds\n    let flipped = lhs.v.yx;\n    return Value(vec2f(-flipped.x, -flipped.y));\n}", "WGSL op_neg: lanes written out"),
+    ("fidget-wgpu/src/shaders/tape_interpreter.wgsl", "            case OP_COPY:    { tmp = lhs; }\n            case OP_NEG:     { tmp = op_neg(lhs); }", "            case OP_NEG:     { tmp = op_neg(lhs); }\n            case OP_COPY:    { tmp = lhs; }", "WGSL decoder: reorder two cases"),
 ]
